@@ -268,6 +268,23 @@ def run(ctx):
             if r.rc != 0:
                 raise RuntimeError("reference %s failed\n%s" % (cmd, r.text()))
             calls = crash.sc_calls(r.trace)
+            # "written beside the old one, flushed, re-read and verified before it atomically replaces the old copy":
+            # in the call trace every rename X.tmp -> X must be preceded by an fsync of X.tmp issued after the last write to it
+            last_write, last_sync = {}, {}
+            for e in calls:
+                if e.call == "write":
+                    last_write[e.path] = e.k
+                elif e.call == "fsync" and e.ret == 0:
+                    last_sync[e.path] = e.k
+                elif e.call == "rename" and e.path.endswith(".tmp") and any(e.path == p + ".tmp" for p in L0.content_paths()):
+                    lw, ls = last_write.get(e.path, -1), last_sync.get(e.path, -1)
+                    if lw < 0 or ls < lw:
+                        ctx.violation("C09/atomic/%s/rename-without-flush" % cmd[0],
+                                      "%s: %s renamed over the content file without an fsync after its last write (write call %d, fsync call %d, rename call %d) (%s)"
+                                      % (" ".join(cmd), os.path.relpath(e.path, L0.root), lw, ls, e.k, label),
+                                      dict(part="atomic-final", cfg=cfg.describe(), ops=ops, cmd=cmd))
+                    last_write.pop(e.path, None)
+                    last_sync.pop(e.path, None)
             raws = {open(p, "rb").read() for p in L0.content_paths()}
             if len(raws) != 1:
                 ctx.violation("C09/atomic/copies-differ-after-success", "copies differ after successful %s" % (cmd,),
